@@ -69,11 +69,14 @@ decode_total!(c09_need_total_l33, SyncNeedV1, 33, 4);
 decode_total!(c09_need_total_l49, SyncNeedV1, 49, 5);
 
 // ---- Changeset (hand-written) --------------------------------------------------------------
-decode_total!(c09_changeset_total_l01, Changeset, 1, 4, not_first = 1);
-decode_total!(c09_changeset_total_l09, Changeset, 9, 4, not_first = 1);
-decode_total!(c09_changeset_total_l18, Changeset, 18, 4, not_first = 1);
-decode_total!(c09_changeset_total_l26, Changeset, 26, 4, not_first = 1);
-decode_total!(c09_changeset_total_l33, Changeset, 33, 4, not_first = 1);
+// one harness per arm with the tag byte concrete (a symbolic tag makes CBMC's symbolic
+// execution walk the derived Vec<Change> reader of the Full arm for every harness)
+decode_total!(c09_changeset_badtag_l09, Changeset, 9, 4, prefix = [7]);
+decode_total!(c09_changeset_badtag255_l09, Changeset, 9, 4, prefix = [255]);
+decode_total!(c09_changeset_empty_total_l18, Changeset, 18, 4, prefix = [0]);
+decode_total!(c09_changeset_empty_total_l26, Changeset, 26, 4, prefix = [0]);
+decode_total!(c09_changeset_emptyset_total_l17, Changeset, 17, 4, prefix = [2]);
+decode_total!(c09_changeset_emptyset_total_l33, Changeset, 33, 4, prefix = [2]);
 // (the generic Changeset harnesses exclude tag 1: its arm only delegates to the derived
 // Vec<Change> reader, which is covered here)
 // Full variant: tag fixed to 1, everything else symbolic (lands in the derived Vec<Change> reader)
@@ -508,33 +511,30 @@ fn c09_num_bytes_needed_minimal() {
     assert!(m == ref_int_bytes((w as u32) as i64));
 }
 
-/// every i64 key survives pack -> unpack; the packed bytes follow the extension's layout:
-/// [ncols][type | nbytes<<3][big-endian minimal bytes].  One harness per byte width (the width is
-/// then concrete for bytes' put_int/get_uint copies); together the nine cover every i64.
-fn pack_unpack_integer(width: usize) {
+/// unpack side alone: a key laid out as the extension writes it ([1][1 | n<<3][n big-endian bytes],
+/// n = minimal width of v) unpacks to v — for every i64 (catches sign extension of widths < 8)
+#[kani::proof]
+#[kani::unwind(10)]
+#[kani::stub(alloc::fmt::format, stub_format)]
+fn c09_unpack_integer_layout_all_i64() {
     let v: i64 = kani::any();
-    kani::assume(ref_int_bytes(v) as usize == width);
-    let packed = match pack_columns(&[SqliteValue::Integer(v)]) {
-        Ok(p) => p,
-        Err(_) => {
-            assert!(false, "pack failed");
-            return;
-        }
-    };
-    let n = width;
-    assert!(packed.len() == 2 + n, "C09-PACK: layout length");
-    assert!(packed[0] == 1 && packed[1] == ((n as u8) << 3 | 1), "C09-PACK: header bytes");
+    let n = ref_int_bytes(v) as usize;
+    let mut buf = [0u8; 10];
+    buf[0] = 1;
+    buf[1] = ((n as u8) << 3) | 1;
     let mut i = 0;
-    while i < n {
-        assert!(packed[2 + i] == ((v as u64) >> (8 * (n - 1 - i))) as u8, "C09-PACK: big-endian payload");
+    while i < 8 {
+        if i < n {
+            buf[2 + i] = ((v as u64) >> (8 * (n - 1 - i))) as u8;
+        }
         i += 1;
     }
-    match unpack_columns(&packed) {
+    match unpack_columns(&buf[..2 + n]) {
         Ok(cols) => {
             assert!(cols.len() == 1);
             match cols[0].0 {
                 ValueRef::Integer(d) => {
-                    assert!(d == v, "C09-PACK: packed integer key does not unpack to the same value")
+                    assert!(d == v, "C09-PACK: a key in the extension's layout does not unpack to the same integer")
                 }
                 _ => {
                     assert!(false, "C09-PACK: wrong column type")
@@ -543,113 +543,116 @@ fn pack_unpack_integer(width: usize) {
             core::mem::forget(cols);
         }
         Err(_) => {
-            assert!(false, "C09-PACK: packed key does not unpack");
+            assert!(false, "C09-PACK: a well-formed key does not unpack");
         }
     }
-    kani::cover!(true, "round trip completed");
-    core::mem::forget(packed);
-}
-#[kani::proof]
-#[kani::unwind(10)]
-#[kani::stub(alloc::fmt::format, stub_format)]
-fn c09_pack_unpack_integer_w0() {
-    pack_unpack_integer(0);
-}
-#[kani::proof]
-#[kani::unwind(10)]
-#[kani::stub(alloc::fmt::format, stub_format)]
-fn c09_pack_unpack_integer_w1() {
-    pack_unpack_integer(1);
-}
-#[kani::proof]
-#[kani::unwind(10)]
-#[kani::stub(alloc::fmt::format, stub_format)]
-fn c09_pack_unpack_integer_w2() {
-    pack_unpack_integer(2);
-}
-#[kani::proof]
-#[kani::unwind(10)]
-#[kani::stub(alloc::fmt::format, stub_format)]
-fn c09_pack_unpack_integer_w3() {
-    pack_unpack_integer(3);
-}
-#[kani::proof]
-#[kani::unwind(10)]
-#[kani::stub(alloc::fmt::format, stub_format)]
-fn c09_pack_unpack_integer_w4() {
-    pack_unpack_integer(4);
-}
-#[kani::proof]
-#[kani::unwind(10)]
-#[kani::stub(alloc::fmt::format, stub_format)]
-fn c09_pack_unpack_integer_w5() {
-    pack_unpack_integer(5);
-}
-#[kani::proof]
-#[kani::unwind(10)]
-#[kani::stub(alloc::fmt::format, stub_format)]
-fn c09_pack_unpack_integer_w6() {
-    pack_unpack_integer(6);
-}
-#[kani::proof]
-#[kani::unwind(10)]
-#[kani::stub(alloc::fmt::format, stub_format)]
-fn c09_pack_unpack_integer_w7() {
-    pack_unpack_integer(7);
-}
-#[kani::proof]
-#[kani::unwind(10)]
-#[kani::stub(alloc::fmt::format, stub_format)]
-fn c09_pack_unpack_integer_w8() {
-    pack_unpack_integer(8);
+    kani::cover!(n == 1 && v >= 128, "one byte with the top bit set");
+    kani::cover!(v < 0, "negative key");
+    kani::cover!(v == 0, "zero key");
 }
 
+/// pack side alone: every i64 is packed in the extension's layout
 #[kani::proof]
-#[kani::unwind(12)]
+#[kani::unwind(10)]
 #[kani::stub(alloc::fmt::format, stub_format)]
-fn c09_pack_unpack_mixed_len0() {
-    pack_unpack_mixed(0);
-}
-#[kani::proof]
-#[kani::unwind(12)]
-#[kani::stub(alloc::fmt::format, stub_format)]
-fn c09_pack_unpack_mixed_len2() {
-    pack_unpack_mixed(2);
-}
-fn pack_unpack_mixed(n: usize) {
-    // real (every bit pattern), null, text or blob of n bytes: three columns
-    let f = f64::from_bits(kani::any());
-    let raw: [u8; 2] = kani::any();
-    let as_text: bool = kani::any();
-    let second = if as_text {
-        kani::assume(raw[0] < 0x80 && raw[1] < 0x80);
-        SqliteValue::Text(CompactString::new(core::str::from_utf8(&raw[..n]).unwrap()))
-    } else {
-        SqliteValue::Blob(SmallVec::from_slice(&raw[..n]))
-    };
-    let cols_in = [SqliteValue::Real(Real(f)), SqliteValue::Null, second];
-    let packed = match pack_columns(&cols_in) {
+fn c09_pack_integer_layout_all_i64() {
+    let v: i64 = kani::any();
+    let cols = [SqliteValue::Integer(v)];
+    let packed = match pack_columns(&cols) {
         Ok(p) => p,
         Err(_) => {
             assert!(false, "pack failed");
             return;
         }
     };
-    match unpack_columns(&packed) {
+    let n = ref_int_bytes(v) as usize;
+    assert!(packed.len() == 2 + n, "C09-PACK: layout length");
+    assert!(packed[0] == 1 && packed[1] == ((n as u8) << 3 | 1), "C09-PACK: header bytes");
+    let mut i = 0;
+    while i < 8 {
+        if i < n {
+            assert!(packed[2 + i] == ((v as u64) >> (8 * (n - 1 - i))) as u8, "C09-PACK: big-endian payload");
+        }
+        i += 1;
+    }
+    kani::cover!(n == 4 && v >= (1 << 31), "u32-range key with the top bit set");
+    core::mem::forget(packed);
+    core::mem::forget(cols);
+}
+
+/// pack side, other kinds: real (every bit pattern), null, text and blob of 2 bytes follow the
+/// layout [ncols] [2][8 bytes BE] [5] [3|1<<3][len][bytes] / [4|1<<3][len][bytes]
+#[kani::proof]
+#[kani::unwind(10)]
+#[kani::stub(alloc::fmt::format, stub_format)]
+fn c09_pack_mixed_layout() {
+    let bits: u64 = kani::any();
+    let raw: [u8; 2] = kani::any();
+    let as_text: bool = kani::any();
+    let third = if as_text {
+        kani::assume(raw[0] < 0x80 && raw[1] < 0x80);
+        SqliteValue::Text(CompactString::new(core::str::from_utf8(&raw).unwrap()))
+    } else {
+        SqliteValue::Blob(SmallVec::from_slice(&raw))
+    };
+    let cols = [SqliteValue::Real(Real(f64::from_bits(bits))), SqliteValue::Null, third];
+    let packed = match pack_columns(&cols) {
+        Ok(p) => p,
+        Err(_) => {
+            assert!(false, "pack failed");
+            return;
+        }
+    };
+    assert!(packed.len() == 1 + 9 + 1 + 4, "C09-PACK: layout length");
+    assert!(packed[0] == 3 && packed[1] == 2, "C09-PACK: header");
+    let mut i = 0;
+    while i < 8 {
+        assert!(packed[2 + i] == (bits >> (8 * (7 - i))) as u8, "C09-PACK: real payload is not the big-endian bit pattern");
+        i += 1;
+    }
+    assert!(packed[10] == 5, "C09-PACK: null");
+    assert!(packed[11] == (1 << 3) | (if as_text { 3 } else { 4 }) && packed[12] == 2, "C09-PACK: text/blob header");
+    assert!(packed[13] == raw[0] && packed[14] == raw[1], "C09-PACK: text/blob payload");
+    core::mem::forget(packed);
+    core::mem::forget(cols);
+}
+
+/// unpack side, other kinds: a key in that layout unpacks to the same values
+#[kani::proof]
+#[kani::unwind(10)]
+#[kani::stub(alloc::fmt::format, stub_format)]
+fn c09_unpack_mixed_layout() {
+    let bits: u64 = kani::any();
+    let raw: [u8; 2] = kani::any();
+    let as_text: bool = kani::any();
+    let mut buf = [0u8; 15];
+    buf[0] = 3;
+    buf[1] = 2;
+    let mut i = 0;
+    while i < 8 {
+        buf[2 + i] = (bits >> (8 * (7 - i))) as u8;
+        i += 1;
+    }
+    buf[10] = 5;
+    buf[11] = (1 << 3) | (if as_text { 3 } else { 4 });
+    buf[12] = 2;
+    buf[13] = raw[0];
+    buf[14] = raw[1];
+    match unpack_columns(&buf) {
         Ok(cols) => {
             assert!(cols.len() == 3);
             match cols[0].0 {
                 ValueRef::Real(d) => {
-                    assert!(d.to_bits() == f.to_bits())
+                    assert!(d.to_bits() == bits, "C09-PACK: real key does not unpack to the same bits")
                 }
                 _ => {
-                    assert!(false)
+                    assert!(false, "C09-PACK: wrong column type")
                 }
             }
             assert!(matches!(cols[1].0, ValueRef::Null));
             match (cols[2].0, as_text) {
                 (ValueRef::Text(b), true) | (ValueRef::Blob(b), false) => {
-                    assert!(b.len() == n && (n < 1 || b[0] == raw[0]) && (n < 2 || b[1] == raw[1]))
+                    assert!(b.len() == 2 && b[0] == raw[0] && b[1] == raw[1], "C09-PACK: text/blob key payload")
                 }
                 _ => {
                     assert!(false, "C09-PACK: wrong column type")
@@ -658,11 +661,9 @@ fn pack_unpack_mixed(n: usize) {
             core::mem::forget(cols);
         }
         Err(_) => {
-            assert!(false, "C09-PACK: packed key does not unpack");
+            assert!(false, "C09-PACK: a well-formed key does not unpack");
         }
     }
-    core::mem::forget(packed);
-    core::mem::forget(cols_in);
 }
 
 /// more than 255 key columns cannot be packed: error, not truncation
